@@ -92,7 +92,7 @@ class Lin:
 
 
 class State:
-    __slots__ = ("dbm", "defs", "flags", "ptrs", "bottom", "notes")
+    __slots__ = ("dbm", "defs", "flags", "ptrs", "bottom", "notes", "ubs")
 
     def __init__(self):
         self.dbm = {}      # (a, b) -> c   meaning a - b <= c   (closed)
@@ -101,9 +101,12 @@ class State:
         self.flags = {}    # bool term -> (cons_if_true, cons_if_false, deps)
         self.bottom = False
         self.notes = set()
+        self.ubs = {}      # term -> Lin with more than one variable:  term <= Lin  (what a callee guarantees about its result
+                           # relative to an argument expression such as `length - offset`; outside the two-variable domain)
 
     def copy(self):
         s = State()
+        s.ubs = dict(self.ubs)
         s.dbm = dict(self.dbm)
         s.defs = dict(self.defs)
         s.ptrs = dict(self.ptrs)
@@ -185,6 +188,8 @@ class State:
             del self.ptrs[p]
         for f in [f for f, (_, _, deps) in self.flags.items() if f == t or t in deps]:
             del self.flags[f]
+        for u in [u for u, l in self.ubs.items() if u == t or t in l.co]:
+            del self.ubs[u]
 
     def kill_prefix(self, pred):
         for t in [t for t in (self.terms() | set(self.defs) | set(self.ptrs) | set(self.flags)) if pred(t)]:
@@ -196,10 +201,14 @@ class State:
             del self.ptrs[p]
         for f in [f for f, (_, _, deps) in self.flags.items() if any(pred(x) for x in deps)]:
             del self.flags[f]
+        for u in [u for u, l in self.ubs.items() if pred(u) or any(pred(x) for x in l.co)]:
+            del self.ubs[u]
 
     def shift(self, t, d):
         """t := t + d  (d may be negative; caller has checked no wrap)"""
         nd = {}
+        for u in [u for u, l in self.ubs.items() if u == t or t in l.co]:
+            del self.ubs[u]
         if d > 0 and (ZERO, t) not in self.dbm and t != ZERO:
             nd[(ZERO, t)] = -d      # every term is unsigned: 0 - t <= 0 held implicitly before the step
         for (a, b), c in self.dbm.items():
@@ -232,7 +241,21 @@ class State:
         if self._lin_le0(l):
             return True
         e = self.expand(l)
-        return e.key() != l.key() and self._lin_le0(e)
+        if e.key() != l.key() and self._lin_le0(e):
+            return True
+        # t <= U(t): replacing a positively occurring t by its recorded upper bound can only make the form larger
+        for t, c in list(l.co.items()):
+            if c != 1:
+                continue
+            for u, ub in self.ubs.items():
+                # t - u <= k (k = 0 for t itself) and u <= ub  =>  t <= ub + k
+                k = 0 if t == u else self.dbm.get((t, u))
+                if k is None or u in l.co and t != u:
+                    continue
+                l2 = l.subst(t, ub.shift(k))
+                if l2.key() != l.key() and (self._lin_le0(l2) or self._lin_le0(self.expand(l2))):
+                    return True
+        return False
 
     def _lin_le0(self, l):
         co = l.co
@@ -307,6 +330,10 @@ def join(a, b):
         o = b.ptrs.get(p)
         if o is not None and o[0] == bb and o[1].key() == l.key():
             s.ptrs[p] = (bb, l)
+    for u, l in a.ubs.items():
+        l2 = b.ubs.get(u)
+        if l2 is not None and l2.key() == l.key():
+            s.ubs[u] = l
     for f in set(a.flags) | set(b.flags):
         fa, fb = a.flags.get(f), b.flags.get(f)
         if fa is not None and fa == fb:
@@ -355,7 +382,7 @@ def equal(a, b):
     return a.bottom == b.bottom and a.dbm == b.dbm and \
         {k: v.key() for k, v in a.defs.items()} == {k: v.key() for k, v in b.defs.items()} and \
         {k: (v[0], v[1].key()) for k, v in a.ptrs.items()} == {k: (v[0], v[1].key()) for k, v in b.ptrs.items()} and \
-        a.flags == b.flags
+        a.flags == b.flags and {k: v.key() for k, v in a.ubs.items()} == {k: v.key() for k, v in b.ubs.items()}
 
 
 class Contract:
@@ -946,6 +973,8 @@ class Zone(dataflow.Client):
                     for la in facts:
                         if t not in la.co:
                             st.add_lin_le0(Lin({t: 1}) - la)
+                            if len([x for x in la.co if x != ZERO]) > 1:
+                                st.ubs[t] = la       # result <= a - b: kept beside the two-variable facts
                     return
             if rn["k"] == "ConditionalOperator":
                 c, a, b = rn["ch"]
